@@ -77,7 +77,7 @@ def role_tie(chk):
 
 
 def oracle(line, evs, meta):
-    return sc.oracle_convergence(evs, meta.get("ncomp", 1)) or sc.oracle_states(evs, None) or sc.oracle_checklist_sorted(evs) or sc.oracle_data(evs)
+    return sc.oracle_convergence(evs, meta.get("ncomp", 1), nat=meta.get("nat")) or sc.oracle_states(evs, None) or sc.oracle_checklist_sorted(evs) or sc.oracle_data(evs)
 
 
 def pregen():
